@@ -687,6 +687,9 @@ def wrapper_histories(ctx: Ctx) -> None:
 
 
 def shard(ctx: Ctx) -> None:
+    from vf.sim import device as _device_fw  # noqa: PLC0415
+
+    _device_fw.ROTATE_FIRMWARE = True    # the firmware flavour of default devices rotates (hello without a name, API 1.2 / 1.8 / 1.12, deep sleep)
     from vf.sim import device as _device
 
     _device.AUTO_ROTATE = True   # chunking of the device's stream rotates: as written / replies coalesced / cut into 1..8-byte pieces
